@@ -33,6 +33,20 @@ impl ChildProcess {
         }
     }
 
+    /// Wraps a future standing in for a child process (feature `verif-hooks`).
+    #[cfg(feature = "verif-hooks")]
+    pub(crate) fn from_future(
+        exec_future: WaitableChildProcess,
+        pid: Option<sys::process::ProcessId>,
+        pgid: Option<sys::process::ProcessId>,
+    ) -> Self {
+        Self {
+            exec_future,
+            pid,
+            pgid,
+        }
+    }
+
     /// Returns the process's ID.
     pub const fn pid(&self) -> Option<sys::process::ProcessId> {
         self.pid
@@ -45,6 +59,8 @@ impl ChildProcess {
 
     /// Waits for the process to exit.
     pub async fn wait(&mut self) -> Result<ProcessWaitResult, error::Error> {
+        #[cfg(feature = "verif-hooks")]
+        crate::verif::before_process_wait(self.pid);
         #[allow(unused_mut, reason = "only mutated on some platforms")]
         let mut sigtstp = sys::signal::tstp_signal_listener()?;
         #[allow(unused_mut, reason = "only mutated on some platforms")]
@@ -74,6 +90,8 @@ impl ChildProcess {
     }
 
     pub(crate) fn poll(&mut self) -> Option<Result<std::process::Output, error::Error>> {
+        #[cfg(feature = "verif-hooks")]
+        crate::verif::before_process_poll(self.pid);
         let checkable_future = &mut self.exec_future;
         checkable_future
             .now_or_never()
